@@ -190,11 +190,48 @@ def extract(tree):
                    "(set vk (next vs vk)) (if (= nil vk) (break)) (put res (in ks kk) (in vs vk))) res)",
         "update": "(defn update [ds key func & args] (def old (get ds key)) (put ds key (func old ;args)))",
     }
+    # session 3: freeze / thaw / invert (+ the private walk-dict) and the tabseq macro
+    shapes.update({
+        "invert": "(defn invert [ds] (def ret @{}) (loop [k :keys ds] (put ret (in ds k) k)) ret)",
+        "freeze": "(defn freeze [x] (def tx (type x)) (cond (or (= tx :array) (= tx :tuple)) (tuple/slice (map freeze x)) "
+                  "(or (= tx :table) (= tx :struct)) (let [temp-tab @{}] (eachp [k v] x (def kk (freeze k)) (def vv (freeze v)) "
+                  "(def old (get temp-tab kk)) (def new (if (= nil old) vv (max vv old))) (put temp-tab kk new)) "
+                  "(table/to-struct temp-tab (freeze (getproto x)))) (= tx :buffer) (string x) x))",
+        "thaw": "(defn thaw [ds] (case (type ds) :array (walk-ind thaw ds) :tuple (walk-ind thaw ds) :table (walk-dict thaw (table/proto-flatten ds)) "
+                ":struct (walk-dict thaw (struct/proto-flatten ds)) :string (buffer ds) ds))",
+    })
     for name, want in shapes.items():
         got = defn_text(name)
         if got != want:
             raise ExtractError("boot.janet `%s` no longer has the modelled shape (fresh @{} filled by put): %r" % (name, got[:300]))
-    out["boot_shapes"] = sorted(shapes)
+    m = re.search(r"\(defn- walk-dict \[f form\]\s+\(def ret @\{\}\)\s+\(loop \[k :keys form\]\s+\(put ret \(f k\) \(f \(in form k\)\)\)\)\s+ret\)", boot)
+    if not m:
+        raise ExtractError("boot.janet `walk-dict` no longer has the modelled shape (fresh @{} filled by put)")
+    m = re.search(r"\(defmacro tabseq\b.*?\[head key-body & value-body\]\s+\(def \$accum \(gensym\)\)\s+~\(do \(def ,\$accum @\{\}\) \(loop ,head \(,put ,\$accum ,key-body \(do ,;value-body\)\)\) ,\$accum\)\)", boot, re.S)
+    if not m:
+        raise ExtractError("boot.janet `tabseq` no longer expands to a fresh @{} filled by put")
+    out["boot_shapes"] = sorted(list(shapes) + ["walk-dict", "tabseq"])
+    # ---- table.c / struct.c: constructors and prototype accessors (session 3)
+    flat = lambda b: re.sub(r"\s+", " ", b)
+    for fn in ("janet_table", "janet_table_weakk", "janet_table_weakv", "janet_table_weakkv"):
+        b = flat(csrc.func_body(tab, fn))
+        if not re.search(r"JanetTable \*table = janet_gcalloc\(JANET_MEMORY_TABLE\w*, sizeof\(JanetTable\)\); return janet_table_init_impl\(table, capacity, 0\);", b):
+            raise ExtractError("%s: no longer `janet_table_init_impl(table, capacity, 0)` on a fresh object" % fn)
+    b = flat(csrc.func_body(tab, "janet_table_init_impl"))
+    if not re.search(r"capacity = janet_tablen\(capacity\);.*table->count = 0; table->deleted = 0; table->proto = NULL; return table;", b):
+        raise ExtractError("janet_table_init_impl: shape not recognised")
+    b = flat(csrc.func_body(tab, "janet_table_rawget"))
+    if not re.search(r"JanetKV \*bucket = janet_table_find\(t, key\); if \(NULL != bucket && !janet_checktype\(bucket->key, JANET_NIL\)\) return bucket->value; else return janet_wrap_nil\(\);", b):
+        raise ExtractError("janet_table_rawget: shape not recognised (must not follow t->proto)")
+    b = flat(csrc.func_body(st, "janet_struct_get_ex"))
+    if not re.search(r"for \(int i = JANET_MAX_PROTO_DEPTH; st && i; --i, st = janet_struct_proto\(st\)\) \{ const JanetKV \*kv = janet_struct_find\(st, key\); if \(NULL != kv && !janet_checktype\(kv->key, JANET_NIL\)\) \{ \*which = st; return kv->value; \} \} return janet_wrap_nil\(\);", b):
+        raise ExtractError("janet_struct_get_ex: prototype walk not recognised")
+    b = flat(csrc.func_body(st, "janet_struct_rawget"))
+    if "janet_struct_proto" in b or not re.search(r"const JanetKV \*kv = janet_struct_find\(st, key\); return kv \? kv->value : janet_wrap_nil\(\);", b):
+        raise ExtractError("janet_struct_rawget: shape not recognised (must not follow the prototype)")
+    b = flat(csrc.func_body(st, "janet_struct_to_table"))
+    if not re.search(r"JanetTable \*table = janet_table\(janet_struct_capacity\(st\)\);.*janet_table_put\(table, kv->key, kv->value\);", b):
+        raise ExtractError("janet_struct_to_table: shape not recognised")
     return out
 
 
